@@ -1,9 +1,14 @@
 /-
   C14 / C15 — tie between src/server/epoll.rs and the transition system of Khttp/Model/Epoll.lean.
   tools/extract_skeleton.py extracts, on every run, the ordered synchronisation actions of `EpollJob::run`,
-  `serve_epoll` and `Reaper::free_dead` (with memory orderings, and the braces that enclose actions).
+  `serve_epoll` and `Reaper::free_dead` (with memory orderings), in CANONICAL form: helper functions of the same file inlined at
+  their call sites, named event masks resolved, and only the actions in program order kept (no braces, no `return` / `continue`) —
+  so re-shaped control flow (`if let … return` / `match`, early `continue` / nested `if`, a block extracted into a private function
+  or inlined, a narrower `unsafe` block, renamed locals) gives the same lists, while a missing, added, re-ordered or weakened action
+  does not.  What the flat form cannot see — an action moved into or out of a branch without any other change — changes the event
+  traces of the instrumented server, which the trace-conformance run of every check compares with the model.
   Two kernel-checked obligations per function:
-   (1) the extracted list is literally the expected one (order, scoping, orderings, nothing missing);
+   (1) the extracted list is literally the expected one (order, orderings, nothing missing, nothing added);
    (2) its synchronisation actions, in program order, are the ones the model's steps are annotated with
        (`Epoll.expectedSkeleton`, derived from `Epoll.skeletonSyncs` — the data `orderings_sufficient` is about).
   The registration flags of a connection socket are part of the list: `events EPOLLIN|EPOLLRDHUP` — LEVEL-triggered, the
@@ -16,20 +21,18 @@ import Khttp.Model.Epoll
 namespace Khttp
 
 def Epoll.expectedJobRun : List String :=
-  ["handle_one_request", "{", "store in_flight false Release", "return", "}",
-   "{", "epoll_ctl DEL", "take stream", "teardown", "{", "drop stream", "}", "}",
+  ["handle_one_request", "store in_flight false Release",
+   "epoll_ctl DEL", "take stream", "teardown", "drop stream",
    "store closed true Release", "reaper push", "reaper wake"]
 
 def Epoll.expectedServe : List String :=
-  ["{", "{", "epoll_wait", "}", "{", "{", "continue", "return", "}", "}",
-   "{", "{", "accept", "{", "setup", "{", "{", "continue", "return", "}", "}",
-   "box stream", "box handle", "{", "events EPOLLIN|EPOLLRDHUP", "}", "{", "epoll_ctl ADD", "}",
-   "{", "{", "free handle", "take stream", "}", "teardown", "{", "drop stream", "}", "}", "}", "}",
-   "{", "drain_wake", "}",
-   "{", "load closed Acquire", "cas in_flight false true Acquire Relaxed", "{", "execute", "}", "}", "}",
-   "free_dead", "}"]
+  ["epoll_wait", "accept", "setup", "box stream", "box handle", "events EPOLLIN|EPOLLRDHUP", "epoll_ctl ADD",
+   "free handle", "take stream", "teardown", "drop stream",
+   "drain_wake",
+   "load closed Acquire", "cas in_flight false true Acquire Relaxed", "execute",
+   "free_dead"]
 
-def Epoll.expectedFreeDead : List String := ["take dead list", "{", "{", "free handle", "}", "}"]
+def Epoll.expectedFreeDead : List String := ["take dead list", "free handle"]
 
 theorem C14_skeleton_job : Gen.epollJobRun = Epoll.expectedJobRun := by decide
 theorem C14_skeleton_serve : Gen.epollServe = Epoll.expectedServe := by decide
